@@ -17,5 +17,7 @@ Emit == Valid =>
      zero |-> Allowed(w, 0, 1), max |-> LastPosUpTo(w, Len(w)),
      mids |-> [k \in 1..K |-> Allowed(w, 2 * k - 1, 2 * K)],
      below |-> [i \in 1..Len(w) |-> IF i \in Thresholds THEN LastPosUpTo(w, i) ELSE {}],
-     above |-> [i \in 1..Len(w) |-> IF i \in Thresholds THEN FirstPosAfter(w, i) ELSE {}]])>>)
+     above |-> [i \in 1..Len(w) |-> IF i \in Thresholds THEN FirstPosAfter(w, i) ELSE {}],
+     \* the variate EXACTLY at the threshold cum_i: both closed intervals contain it
+     at |-> [i \in 1..Len(w) |-> IF i \in Thresholds THEN Allowed(w, SumTo(w, i), Total(w)) ELSE {}]])>>)
 =============================================================================
